@@ -369,7 +369,14 @@ func (runInfo *runInfoStruct) invokeMemberExpr(expr *ast.MemberExpr) {
 	case reflect.Struct:
 		field, found := runInfo.rv.Type().FieldByName(expr.Name)
 		if found {
-			runInfo.rv = runInfo.rv.FieldByIndex(field.Index)
+			value := runInfo.rv.FieldByIndex(field.Index)
+			if !value.CanInterface() {
+				// not exported, the value could not be used
+				runInfo.err = newStringError(expr, "struct member '"+expr.Name+"' is not exported")
+				runInfo.rv = nilValue
+				return
+			}
+			runInfo.rv = value
 			return
 		}
 		if runInfo.rv.CanAddr() {
